@@ -28,14 +28,19 @@ Inductive lline := Fit (c : list N) | Big.
 Definition lline_of (B : nat) (l : list N) : lline :=
   if Nat.ltb (length l) B then Fit (strip_cr l) else Big.
 
-Definition tail_lline (B : nat) (tl : list N) : list lline :=
+(* the unterminated last line: no terminator to strip or to count; a line of exactly B bytes is
+   within the limit iff the transport reports the end of the body together with it (eager) *)
+Definition tail_fits (eager : bool) (B : nat) (tl : list N) : bool :=
+  Nat.ltb (length tl) B || (eager && Nat.eqb (length tl) B).
+
+Definition tail_lline (eager : bool) (B : nat) (tl : list N) : list lline :=
   match tl with
   | [] => []
-  | _ => [if Nat.ltb (length tl) B then Fit tl else Big]
+  | _ => [if tail_fits eager B tl then Fit tl else Big]
   end.
 
-Definition llines (B : nat) (body : list N) : list lline :=
-  let '(ls, tl) := split_lines body in map (lline_of B) ls ++ tail_lline B tl.
+Definition llines (eager : bool) (B : nat) (body : list N) : list lline :=
+  let '(ls, tl) := split_lines body in map (lline_of B) ls ++ tail_lline eager B tl.
 
 (* the lines in document position: blank lines may precede an action line; an action line is
    followed by exactly one document line; the first five action lines must name create/index;
@@ -70,16 +75,13 @@ Section Spec.
 
   (* every within-limit JSON object line, in order, once, unchanged; over-size and non-object
      lines skipped; one invalid document line or a protocol violation: nothing *)
-  Definition spec_outcome (B : nat) (body : list N) : outcome :=
-    match doc_lines 0 (llines B body) with
+  Definition spec_outcome (eager : bool) (B : nat) (body : list N) : outcome :=
+    match doc_lines 0 (llines eager B body) with
     | None => Rejected
     | Some ds => if existsb is_invalid ds then Rejected else Accepted (objects ds)
     end.
 End Spec.
 
-(* the last line of the body is terminated or shorter than the buffer *)
-Definition tail_ok (B : nat) (body : list N) : Prop := length (snd (split_lines body)) < B.
-Definition tail_okb (B : nat) (body : list N) : bool := Nat.ltb (length (snd (split_lines body))) B.
 
 (* time rule of the statement, on mathematical instants *)
 Open Scope Z_scope.
